@@ -13,11 +13,22 @@ VERUS = {
     # modular/div.rs inv_large: Some(x) ==> x valid and resid(a) * resid(x) == 1 (mod m);  None ==> gcd(resid(a), m) != 1
     # (by divisibility: a common divisor >= 2 exists), over ASSUMED gcd_ext contracts (lib/mod2_gcd.rs)
     'int_moddiv': {'file': 'int_moddiv.rs', 'w32': True},
+    # modular/convert.rs ReducedLarge::{from_ubig, residue}: resid(from_ubig(x)) == x mod m, residue() == resid in [0, m);
+    # div_const.rs ConstLargeDivisor::{rem_large, rem_repr}: (x << shift) mod M;  modular/repr.rs check_same_ring_*:
+    # same ring object ==> returns (panic unreachable)
+    'int_modconv': {'file': 'int_modconv.rs', 'w32': True},
+    # check_same_ring_* must_panic variants: different ring objects ==> no normal return
+    'int_modconv_panic': {'file': 'int_modconv_panic.rs'},
 }
 
 PROP_UNITS = {
-    'C13': {'verus': ['int_modadd2', 'int_modmul', 'int_moddiv'],
-            'undecided': ['int_moddiv ASSUMES (lib/mod2_gcd.rs, trusted): gcd::gcd_ext_word / gcd_ext_dword / gcd_ext_in_place (Lehmer) '
+    'C13': {'verus': ['int_modadd2', 'int_modmul', 'int_moddiv', 'int_modconv', 'int_modconv_panic'],
+            'undecided': ['int_modconv: own trusted mirror of Buffer / TypedRepr / UBig (lib/mod2_conv.rs); "different rings" is '
+                          'reference identity, modelled as the uninterpreted relation same_object that core::ptr::eq is ASSUMED to '
+                          'decide; the operator impls that call check_same_ring_* / panic_different_rings on mixed '
+                          'Single/Double/Large representations (match arms in add.rs, mul.rs, repr.rs) are not under contract; '
+                          'single/double-word from_ubig / residue (num_modular reducers) are not under contract',
+                          'int_moddiv ASSUMES (lib/mod2_gcd.rs, trusted): gcd::gcd_ext_word / gcd_ext_dword / gcd_ext_in_place (Lehmer) '
                           'return g = gcd with lhs*a + rhs*b == g, |b| < lhs, exact lengths; primitive::lowest_dword; '
                           'Buffer::from / into_boxed_slice; <[T]>::fill; inv() of single/double-word rings (num_modular) '
                           'and the Div operators (inv + mul dispatch, panic on None) are not under contract',
@@ -27,6 +38,6 @@ PROP_UNITS = {
                           'scratch-memory SIZING (mul_memory_requirement) is not verified',
                           'negate_in_place: `raw.0.iter().all(|w| *w == 0)` is lowered by rule D15 to the verified helper '
                           '__slice_all_eq (meaning of slice::Iter::all trusted as for D1)']},
-    'C16': {'verus': ['int_modadd2', 'int_modmul', 'int_moddiv']},
-    'C19': {'verus': ['int_modadd2', 'int_modmul', 'int_moddiv']},
+    'C16': {'verus': ['int_modadd2', 'int_modmul', 'int_moddiv', 'int_modconv', 'int_modconv_panic']},
+    'C19': {'verus': ['int_modadd2', 'int_modmul', 'int_moddiv', 'int_modconv']},
 }
